@@ -77,8 +77,14 @@ func guardsOf(p *core.Program, n ast.Node, boundary ast.Node) []guard {
 				if s == child {
 					break
 				}
-				if ifs, ok := s.(*ast.IfStmt); ok && ifs.Else == nil && endsInJump(ifs.Body) {
+				// `if a { return } else if b { return }`: what follows runs with !a and !b;
+				// a branch that falls through ends what is known
+				for ifs, ok := s.(*ast.IfStmt); ok && endsInJump(ifs.Body); {
 					add(ifs.Cond, false)
+					if ifs.Else == nil {
+						break
+					}
+					ifs, ok = ifs.Else.(*ast.IfStmt)
 				}
 			}
 		case *ast.CaseClause:
@@ -86,8 +92,14 @@ func guardsOf(p *core.Program, n ast.Node, boundary ast.Node) []guard {
 				if s == child {
 					break
 				}
-				if ifs, ok := s.(*ast.IfStmt); ok && ifs.Else == nil && endsInJump(ifs.Body) {
+				// `if a { return } else if b { return }`: what follows runs with !a and !b;
+				// a branch that falls through ends what is known
+				for ifs, ok := s.(*ast.IfStmt); ok && endsInJump(ifs.Body); {
 					add(ifs.Cond, false)
+					if ifs.Else == nil {
+						break
+					}
+					ifs, ok = ifs.Else.(*ast.IfStmt)
 				}
 			}
 			// type switch on X: `case nil` means X == nil, `case T` means X holds a T
